@@ -85,6 +85,7 @@ Definition strip_pred (s : str) : str :=
   let s1 := match s with
             | 34%N :: t => match rev t with
                            | 34%N :: r => rev r
+                           | [] => []            (* the one-character string is its own closing quote *)
                            | _ => s
                            end
             | 39%N :: t => t
